@@ -1,17 +1,460 @@
 /-
   C01 — Group operations realise the documented matrix group (property theorems).
+
+  For every supported group (SO2, SO3, SE2, SE3, C1, Tn, Galilei, SE_K_3 for every K, and Bundles
+  of these, nested arbitrarily) the model of the coefficient-level operations satisfies, over ℝ,
+
+    matrix (g₁ ∘ g₂) = matrix g₁ · matrix g₂        matrix (inverse g) · matrix g = 1 = matrix g · matrix (inverse g)
+    matrix identity = 1                              g * v = the point rows of matrix g · (v, 1)
+
+  under the representation constraint of the group (unit rotation part; `a² + b² ≠ 0` for C1; none
+  for Tn), and the constraint is preserved by the operations.  `mmul`, `ident`, `mulVec` are the
+  model's matrix product / identity / matrix–vector product; `Lin.toM_mmul`, `Lin.toM_ident`,
+  `Lin.toV_mulVec` (SmoothProofs/C01Base.lean) identify them with Mathlib's `*`, `1`, `Matrix.mulVec`.
+
+  What is NOT needed / what fails without the constraint is stated too:
+  * SO2, C1, Tn, SE2 composition: no constraint (polynomial identity).
+  * SO3-based composition: `SO3.matrix` is Eigen's non-normalising `toRotationMatrix`, the constraint
+    is necessary (`so3_matrix_composition_needs_unit`).
+  * `SO3.act` (Eigen `_transformVector`) equals `matrix q · v` for ALL quaternions.
+  * coefficient-level associativity of SO3 holds up to the sign of the quaternion
+    (`so3_composition_assoc_coeffs`), exactly when `w ≠ 0` (`so3_composition_assoc_of_w_ne_zero`),
+    and genuinely fails for a half-turn product (`so3_composition_not_assoc`); through `matrix`
+    it always holds (`matrix_assoc`).
+
+  Helper lemmas: SmoothProofs/C01{Base,Group,Block,Small,SO3,SE3,Bundle}.lean.
 -/
-import SmoothProofs.Real
-import Mathlib.Tactic.Ring
-import Mathlib.Tactic.FinCases
+import SmoothProofs.C01Bundle
+import Mathlib.Tactic.NormNum
+
 open Lin Scalar
 
 namespace C01
 
-/-- SO2: `matrix (g₁ ∘ g₂) = matrix g₁ * matrix g₂` for all coefficient pairs. -/
-theorem so2_matrix_composition (a b : Vec ℝ 2) (i j : Fin 2) :
-    (SO2.matrix (SO2.composition a b)) i j = (mmul (SO2.matrix a) (SO2.matrix b)) i j := by
-  fin_cases i <;> fin_cases j <;>
-    simp [SO2.matrix, SO2.composition, mmul, mat2, mk2, vsum, Mat.of, Vec.of] <;> ring
+/-! ## Witnesses used by the non-vacuity examples -/
+
+/-- rotation by `2·atan2(3,4)` about x: a non-trivial unit quaternion with `w > 0` -/
+noncomputable def qA : Vec ℝ 4 := mk4 (3 / 5) 0 0 (4 / 5)
+/-- half turn about y (`w = 0`) -/
+noncomputable def qB : Vec ℝ 4 := mk4 0 1 0 0
+/-- a unit quaternion with all coefficients non-zero -/
+noncomputable def qC : Vec ℝ 4 := mk4 (1 / 2) (-1 / 2) (1 / 2) (1 / 2)
+/-- a unit complex number (sin, cos) = (3/5, 4/5) -/
+noncomputable def zA : Vec ℝ 2 := mk2 (3 / 5) (4 / 5)
+
+theorem qA_unit : SO3.Unit qA := by simp [SO3.Unit, qA, mk4, Vec.of]; norm_num
+theorem qB_unit : SO3.Unit qB := by simp [SO3.Unit, qB, mk4, Vec.of]
+theorem qC_unit : SO3.Unit qC := by simp [SO3.Unit, qC, mk4, Vec.of]; norm_num
+theorem zA_unit : SO2.Unit zA := by simp [SO2.Unit, zA, mk2, Vec.of]; norm_num
+
+/-! ## SO2 -/
+
+/-- SO2: `matrix (g₁ ∘ g₂) = matrix g₁ · matrix g₂` for all coefficient pairs (no constraint). -/
+theorem so2_matrix_composition (a b : Vec ℝ 2) :
+    SO2.matrix (SO2.composition a b) = mmul (SO2.matrix a) (SO2.matrix b) :=
+  SO2.matrix_composition a b
+
+theorem so2_matrix_identity : SO2.matrix (SO2.identity : Vec ℝ 2) = ident 2 := SO2.matrix_identity
+
+/-- SO2: `inverse` (the conjugate) gives the inverse matrix on unit elements. -/
+theorem so2_matrix_inverse (g : Vec ℝ 2) (h : SO2.Unit g) :
+    mmul (SO2.matrix (SO2.inverse g)) (SO2.matrix g) = ident 2 ∧
+    mmul (SO2.matrix g) (SO2.matrix (SO2.inverse g)) = ident 2 :=
+  ⟨SO2.matrix_inverse_left g h, SO2.matrix_inverse_right g h⟩
+example : SO2.Unit zA := zA_unit
+
+theorem so2_unit_identity : SO2.Unit (SO2.identity : Vec ℝ 2) := SO2.unit_identity
+theorem so2_unit_composition (a b : Vec ℝ 2) (ha : SO2.Unit a) (hb : SO2.Unit b) :
+    SO2.Unit (SO2.composition a b) := SO2.unit_composition a b ha hb
+example : SO2.Unit zA ∧ SO2.Unit (SO2.composition zA zA) :=
+  ⟨zA_unit, SO2.unit_composition _ _ zA_unit zA_unit⟩
+theorem so2_unit_inverse (g : Vec ℝ 2) (h : SO2.Unit g) : SO2.Unit (SO2.inverse g) :=
+  SO2.unit_inverse g h
+example : SO2.Unit zA := zA_unit
+
+/-- SO2: `g * v` is `matrix g · v`, i.e. `(qw x − qz y, qz x + qw y)`. -/
+theorem so2_action_eq_matrix (g v : Vec ℝ 2) :
+    SO2.act g v = mulVec (SO2.matrix g) v ∧
+    SO2.act g v = mk2 (g 1 * v 0 - g 0 * v 1) (g 0 * v 0 + g 1 * v 1) :=
+  ⟨rfl, SO2.act_eq g v⟩
+
+/-! ## C1 -/
+
+theorem c1_matrix_composition (a b : Vec ℝ 2) :
+    C1.matrix (C1.composition a b) = mmul (C1.matrix a) (C1.matrix b) :=
+  C1.matrix_composition a b
+
+theorem c1_matrix_identity : C1.matrix (C1.identity : Vec ℝ 2) = ident 2 := C1.matrix_identity
+
+/-- C1: `inverse` divides by `a² + b²`; it gives the inverse matrix whenever that is non-zero. -/
+theorem c1_matrix_inverse (g : Vec ℝ 2) (h : C1.Valid g) :
+    mmul (C1.matrix (C1.inverse g)) (C1.matrix g) = ident 2 ∧
+    mmul (C1.matrix g) (C1.matrix (C1.inverse g)) = ident 2 :=
+  ⟨C1.matrix_inverse_left g h, C1.matrix_inverse_right g h⟩
+example : C1.Valid (mk2 3 (-4) : Vec ℝ 2) := by simp [C1.Valid, mk2, Vec.of]; norm_num
+
+theorem c1_valid_identity : C1.Valid (C1.identity : Vec ℝ 2) := C1.valid_identity
+theorem c1_valid_composition (a b : Vec ℝ 2) (ha : C1.Valid a) (hb : C1.Valid b) :
+    C1.Valid (C1.composition a b) := C1.valid_composition a b ha hb
+example : C1.Valid (mk2 3 (-4) : Vec ℝ 2) := by simp [C1.Valid, mk2, Vec.of]; norm_num
+theorem c1_valid_inverse (g : Vec ℝ 2) (h : C1.Valid g) : C1.Valid (C1.inverse g) :=
+  C1.valid_inverse g h
+example : C1.Valid (mk2 3 (-4) : Vec ℝ 2) := by simp [C1.Valid, mk2, Vec.of]; norm_num
+
+/-- the squared modulus (scaling²) is multiplicative -/
+theorem c1_sqnorm_composition (a b : Vec ℝ 2) :
+    (C1.composition a b) 0 ^ 2 + (C1.composition a b) 1 ^ 2
+      = (a 0 ^ 2 + a 1 ^ 2) * (b 0 ^ 2 + b 1 ^ 2) := C1.sqnorm_composition a b
+
+theorem c1_action_eq_matrix (g v : Vec ℝ 2) :
+    C1.act g v = mulVec (C1.matrix g) v ∧
+    C1.act g v = mk2 (g 1 * v 0 - g 0 * v 1) (g 0 * v 0 + g 1 * v 1) :=
+  ⟨rfl, C1.act_eq g v⟩
+
+/-! ## Tn n (translations; also Eigen vectors and built-in scalars), every n -/
+
+theorem tn_matrix_composition {n : Nat} (a b : Vec ℝ n) :
+    Tn.matrix (Tn.composition a b) = mmul (Tn.matrix a) (Tn.matrix b) := Tn.matrix_composition a b
+
+theorem tn_matrix_identity (n : Nat) : Tn.matrix (Tn.identity n : Vec ℝ n) = ident (n + 1) :=
+  Tn.matrix_identity n
+
+theorem tn_matrix_inverse {n : Nat} (g : Vec ℝ n) :
+    mmul (Tn.matrix (Tn.inverse g)) (Tn.matrix g) = ident (n + 1) ∧
+    mmul (Tn.matrix g) (Tn.matrix (Tn.inverse g)) = ident (n + 1) :=
+  ⟨Tn.matrix_inverse_left g, Tn.matrix_inverse_right g⟩
+
+/-! ## SE2 -/
+
+theorem se2_matrix_composition (a b : Vec ℝ 4) :
+    SE2.matrix (SE2.composition a b) = mmul (SE2.matrix a) (SE2.matrix b) :=
+  SE2.matrix_composition a b
+
+theorem se2_matrix_identity : SE2.matrix (SE2.identity : Vec ℝ 4) = ident 3 := SE2.matrix_identity
+
+noncomputable def se2A : Vec ℝ 4 := mk4 1 (-2) (3 / 5) (4 / 5)
+theorem se2A_unit : SE2.Unit se2A := by simp [SE2.Unit, se2A, mk4, Vec.of]; norm_num
+
+theorem se2_matrix_inverse (g : Vec ℝ 4) (h : SE2.Unit g) :
+    mmul (SE2.matrix (SE2.inverse g)) (SE2.matrix g) = ident 3 ∧
+    mmul (SE2.matrix g) (SE2.matrix (SE2.inverse g)) = ident 3 :=
+  ⟨SE2.matrix_inverse_left g h, SE2.matrix_inverse_right g h⟩
+example : SE2.Unit se2A := se2A_unit
+
+theorem se2_unit_identity : SE2.Unit (SE2.identity : Vec ℝ 4) := SE2.unit_identity
+theorem se2_unit_composition (a b : Vec ℝ 4) (ha : SE2.Unit a) (hb : SE2.Unit b) :
+    SE2.Unit (SE2.composition a b) := SE2.unit_composition a b ha hb
+example : SE2.Unit se2A := se2A_unit
+theorem se2_unit_inverse (g : Vec ℝ 4) (h : SE2.Unit g) : SE2.Unit (SE2.inverse g) :=
+  SE2.unit_inverse g h
+example : SE2.Unit se2A := se2A_unit
+
+/-- SE2: `matrix g · (v, 1) = (g * v, 1)` for all coefficients. -/
+theorem se2_action_eq_matrix (g : Vec ℝ 4) (v : Vec ℝ 2) :
+    mulVec (SE2.matrix g) (SE2.embed v) = SE2.embed (SE2.act g v) := SE2.act_eq_matrix g v
+
+/-! ## SO3 -/
+
+/-- the sign canonicalisation `if w < 0 then q := −q` is invisible through `matrix` (all q) -/
+theorem so3_matrix_canon (q : Vec ℝ 4) : SO3.matrix (SO3.canon q) = SO3.matrix q := SO3.matrix_canon q
+
+/-- Eigen's `toRotationMatrix` is the homogeneous rotation matrix plus `(1 − ‖q‖²)·1` (all q) -/
+theorem so3_matrix_eq_rotH_add (q : Vec ℝ 4) (i j : Fin 3) :
+    (SO3.matrix q) i j = (SO3.rotH q) i j + (1 - SO3.sqn q) * (ident 3 : Mat ℝ 3 3) i j :=
+  SO3.matrix_eq_rotH_add q i j
+
+/-- the homogeneous rotation matrix is multiplicative on ALL quaternions -/
+theorem so3_rotH_qmul (a b : Vec ℝ 4) : SO3.rotH (SO3.qmul a b) = mmul (SO3.rotH a) (SO3.rotH b) :=
+  SO3.rotH_qmul a b
+
+theorem so3_matrix_composition (a b : Vec ℝ 4) (ha : SO3.Unit a) (hb : SO3.Unit b) :
+    SO3.matrix (SO3.composition a b) = mmul (SO3.matrix a) (SO3.matrix b) :=
+  SO3.matrix_composition a b ha hb
+example : SO3.Unit qA ∧ SO3.Unit qB := ⟨qA_unit, qB_unit⟩
+
+/-- the unit hypothesis is necessary: `q = (1,0,0,1)` (norm² 2) squares to `(2,0,0,0)` and entry
+    (1,1) of `matrix (q∘q)` is −7 while that of `matrix q · matrix q` is −3. -/
+theorem so3_matrix_composition_needs_unit :
+    ∃ a b : Vec ℝ 4, SO3.matrix (SO3.composition a b) ≠ mmul (SO3.matrix a) (SO3.matrix b) := by
+  refine ⟨mk4 1 0 0 1, mk4 1 0 0 1, fun h => ?_⟩
+  have h11 := congrArg (fun M : Mat ℝ 3 3 => M 1 1) h
+  simp [SO3.composition, SO3.canon, SO3.qmul, SO3.matrix, mmul, vsum, mat3, mk4, Vec.of, Mat.of] at h11
+  norm_num at h11
+
+theorem so3_matrix_identity : SO3.matrix (SO3.identity : Vec ℝ 4) = ident 3 := SO3.matrix_identity
+
+/-- the quaternion norm is multiplicative (all quaternions) -/
+theorem so3_sqn_qmul (a b : Vec ℝ 4) : SO3.sqn (SO3.qmul a b) = SO3.sqn a * SO3.sqn b :=
+  SO3.sqn_qmul a b
+
+theorem so3_unit_identity : SO3.Unit (SO3.identity : Vec ℝ 4) := SO3.unit_identity
+theorem so3_unit_canon (q : Vec ℝ 4) (h : SO3.Unit q) : SO3.Unit (SO3.canon q) := SO3.unit_canon q h
+example : SO3.Unit (vneg qA) ∧ (vneg qA) 3 < 0 :=
+  ⟨SO3.unit_vneg _ qA_unit, by norm_num [vneg, qA, mk4, Vec.of]⟩
+theorem so3_unit_composition (a b : Vec ℝ 4) (ha : SO3.Unit a) (hb : SO3.Unit b) :
+    SO3.Unit (SO3.composition a b) := SO3.unit_composition a b ha hb
+example : SO3.Unit qA ∧ SO3.Unit qC := ⟨qA_unit, qC_unit⟩
+theorem so3_unit_inverse (g : Vec ℝ 4) (h : SO3.Unit g) : SO3.Unit (SO3.inverse g) :=
+  SO3.unit_inverse g h
+example : SO3.Unit qC := qC_unit
+
+/-- the result of `composition` always has `w ≥ 0` -/
+theorem so3_canon_composition (a b : Vec ℝ 4) : SO3.Canon (SO3.composition a b) :=
+  SO3.canon_composition a b
+
+/-- Eigen's `inverse()` (conjugate / squaredNorm) is the conjugate on unit quaternions -/
+theorem so3_inverse_of_unit (g : Vec ℝ 4) (h : SO3.Unit g) : SO3.inverse g = SO3.conj g :=
+  SO3.inverse_of_unit g h
+example : SO3.Unit qC := qC_unit
+
+theorem so3_matrix_inverse (g : Vec ℝ 4) (h : SO3.Unit g) :
+    mmul (SO3.matrix (SO3.inverse g)) (SO3.matrix g) = ident 3 ∧
+    mmul (SO3.matrix g) (SO3.matrix (SO3.inverse g)) = ident 3 :=
+  ⟨SO3.matrix_inverse_left g h, SO3.matrix_inverse_right g h⟩
+example : SO3.Unit qC := qC_unit
+
+/-- Eigen's `_transformVector` (`v + w·2(u×v) + u×(2(u×v))`) equals `toRotationMatrix(q) · v` for
+    ALL quaternions (both are the same non-normalising polynomial) — no unit hypothesis. -/
+theorem so3_action_eq_matrix (g : Vec ℝ 4) (v : Vec ℝ 3) : SO3.act g v = mulVec (SO3.matrix g) v :=
+  SO3.act_eq_matrix g v
+
+/-- coefficient-level associativity up to the sign of the quaternion (all quaternions) -/
+theorem so3_composition_assoc_coeffs (a b c : Vec ℝ 4) :
+    SO3.composition (SO3.composition a b) c = SO3.composition a (SO3.composition b c) ∨
+    SO3.composition (SO3.composition a b) c = vneg (SO3.composition a (SO3.composition b c)) :=
+  SO3.composition_assoc_pm a b c
+
+/-- … with equality whenever the `w` of the (unsigned) triple product is non-zero -/
+theorem so3_composition_assoc_of_w_ne_zero (a b c : Vec ℝ 4)
+    (hw : (SO3.qmul (SO3.qmul a b) c) 3 ≠ 0) :
+    SO3.composition (SO3.composition a b) c = SO3.composition a (SO3.composition b c) :=
+  SO3.composition_assoc_of_w_ne_zero a b c hw
+example : (SO3.qmul (SO3.qmul qA qC) qA) 3 ≠ 0 := by
+  norm_num [SO3.qmul, qA, qC, mk4, Vec.of]
+
+/-- coefficient-level associativity genuinely fails when the triple product is a half turn:
+    with `a` = half turn about x, `b = qA`, `c` = half turn about y, the two bracketings are the
+    two different unit quaternions `±(0, 3/5, −4/5, 0)` of the same rotation. -/
+theorem so3_composition_not_assoc :
+    ∃ a b c : Vec ℝ 4, SO3.Unit a ∧ SO3.Unit b ∧ SO3.Unit c ∧
+      SO3.composition (SO3.composition a b) c ≠ SO3.composition a (SO3.composition b c) := by
+  refine ⟨mk4 1 0 0 0, qA, qB, by simp [SO3.Unit, mk4, Vec.of], qA_unit, qB_unit, fun h => ?_⟩
+  have h1 := congrArg (fun v : Vec ℝ 4 => v 1) h
+  norm_num [SO3.composition, SO3.canon, SO3.qmul, qA, qB, mk4, Vec.of] at h1
+
+/-! ## SE3 -/
+
+noncomputable def se3A : Vec ℝ 7 := SE3.mk7 (mk3 1 (-2) 3) qC
+theorem se3A_unit : SE3.Unit se3A := by
+  unfold SE3.Unit se3A; rw [SE3.so3_mk7]; exact qC_unit
+
+theorem se3_matrix_composition (a b : Vec ℝ 7) (ha : SE3.Unit a) (hb : SE3.Unit b) :
+    SE3.matrix (SE3.composition a b) = mmul (SE3.matrix a) (SE3.matrix b) :=
+  SE3.matrix_composition a b ha hb
+example : SE3.Unit se3A := se3A_unit
+
+theorem se3_matrix_identity : SE3.matrix (SE3.identity : Vec ℝ 7) = ident 4 := SE3.matrix_identity
+
+theorem se3_matrix_inverse (g : Vec ℝ 7) (h : SE3.Unit g) :
+    mmul (SE3.matrix (SE3.inverse g)) (SE3.matrix g) = ident 4 ∧
+    mmul (SE3.matrix g) (SE3.matrix (SE3.inverse g)) = ident 4 :=
+  ⟨SE3.matrix_inverse_left g h, SE3.matrix_inverse_right g h⟩
+example : SE3.Unit se3A := se3A_unit
+
+theorem se3_unit_identity : SE3.Unit (SE3.identity : Vec ℝ 7) := SE3.unit_identity
+theorem se3_unit_composition (a b : Vec ℝ 7) (ha : SE3.Unit a) (hb : SE3.Unit b) :
+    SE3.Unit (SE3.composition a b) := SE3.unit_composition a b ha hb
+example : SE3.Unit se3A := se3A_unit
+theorem se3_unit_inverse (g : Vec ℝ 7) (h : SE3.Unit g) : SE3.Unit (SE3.inverse g) :=
+  SE3.unit_inverse g h
+example : SE3.Unit se3A := se3A_unit
+
+/-- SE3: `matrix g · (v, 1) = (g * v, 1)` for all coefficients. -/
+theorem se3_action_eq_matrix (g : Vec ℝ 7) (v : Vec ℝ 3) :
+    mulVec (SE3.matrix g) (SE3.embed v) = SE3.embed (SE3.act g v) := SE3.act_eq_matrix g v
+
+/-! ## Galilei -/
+
+noncomputable def galA : Vec ℝ 11 := Galilei.mkG (mk3 1 (-2) 3) (mk3 4 5 (-6)) 7 qC
+theorem galA_unit : Galilei.Unit galA := by
+  unfold Galilei.Unit galA; rw [Galilei.gq_mkG]; exact qC_unit
+
+theorem galilei_matrix_composition (a b : Vec ℝ 11) (ha : Galilei.Unit a) (hb : Galilei.Unit b) :
+    Galilei.matrix (Galilei.composition a b) = mmul (Galilei.matrix a) (Galilei.matrix b) :=
+  Galilei.matrix_composition a b ha hb
+example : Galilei.Unit galA := galA_unit
+
+theorem galilei_matrix_identity : Galilei.matrix (Galilei.identity : Vec ℝ 11) = ident 5 :=
+  Galilei.matrix_identity
+
+theorem galilei_matrix_inverse (g : Vec ℝ 11) (h : Galilei.Unit g) :
+    mmul (Galilei.matrix (Galilei.inverse g)) (Galilei.matrix g) = ident 5 ∧
+    mmul (Galilei.matrix g) (Galilei.matrix (Galilei.inverse g)) = ident 5 :=
+  ⟨Galilei.matrix_inverse_left g h, Galilei.matrix_inverse_right g h⟩
+example : Galilei.Unit galA := galA_unit
+
+theorem galilei_unit_identity : Galilei.Unit (Galilei.identity : Vec ℝ 11) := Galilei.unit_identity
+theorem galilei_unit_composition (a b : Vec ℝ 11) (ha : Galilei.Unit a) (hb : Galilei.Unit b) :
+    Galilei.Unit (Galilei.composition a b) := Galilei.unit_composition a b ha hb
+example : Galilei.Unit galA := galA_unit
+theorem galilei_unit_inverse (g : Vec ℝ 11) (h : Galilei.Unit g) : Galilei.Unit (Galilei.inverse g) :=
+  Galilei.unit_inverse g h
+example : Galilei.Unit galA := galA_unit
+
+/-- Galilei: `matrix g · (x, t, 1) = (R x + v t + p, t + τ, 1)` is `(g * (x,t), 1)`, all coefficients. -/
+theorem galilei_action_eq_matrix (g : Vec ℝ 11) (x : Vec ℝ 4) :
+    mulVec (Galilei.matrix g) (Galilei.embed x) = Galilei.embed (Galilei.act g x) :=
+  Galilei.act_eq_matrix g x
+
+/-! ## SE_K_3, every K -/
+
+noncomputable def sekA (k : Nat) : Vec ℝ (4 + 3 * k) := SEK3.mkG k (fun i => mk3 1 (-2) (3 + i.val)) qC
+theorem sekA_unit (k : Nat) : SEK3.Unit k (sekA k) := by
+  unfold SEK3.Unit sekA; rw [SEK3.gq_mkG]; exact qC_unit
+
+theorem sek3_matrix_composition (k : Nat) (a b : Vec ℝ (4 + 3 * k))
+    (ha : SEK3.Unit k a) (hb : SEK3.Unit k b) :
+    SEK3.matrix k (SEK3.composition k a b) = mmul (SEK3.matrix k a) (SEK3.matrix k b) :=
+  SEK3.matrix_composition k a b ha hb
+example (k : Nat) : SEK3.Unit k (sekA k) := sekA_unit k
+
+theorem sek3_matrix_identity (k : Nat) :
+    SEK3.matrix k (SEK3.identity k : Vec ℝ (4 + 3 * k)) = ident (3 + k) := SEK3.matrix_identity k
+
+theorem sek3_matrix_inverse (k : Nat) (g : Vec ℝ (4 + 3 * k)) (h : SEK3.Unit k g) :
+    mmul (SEK3.matrix k (SEK3.inverse k g)) (SEK3.matrix k g) = ident (3 + k) ∧
+    mmul (SEK3.matrix k g) (SEK3.matrix k (SEK3.inverse k g)) = ident (3 + k) :=
+  ⟨SEK3.matrix_inverse_left k g h, SEK3.matrix_inverse_right k g h⟩
+example (k : Nat) : SEK3.Unit k (sekA k) := sekA_unit k
+
+theorem sek3_unit_identity (k : Nat) : SEK3.Unit k (SEK3.identity k : Vec ℝ (4 + 3 * k)) :=
+  SEK3.unit_identity k
+theorem sek3_unit_composition (k : Nat) (a b : Vec ℝ (4 + 3 * k))
+    (ha : SEK3.Unit k a) (hb : SEK3.Unit k b) : SEK3.Unit k (SEK3.composition k a b) :=
+  SEK3.unit_composition k a b ha hb
+example (k : Nat) : SEK3.Unit k (sekA k) := sekA_unit k
+theorem sek3_unit_inverse (k : Nat) (g : Vec ℝ (4 + 3 * k)) (h : SEK3.Unit k g) :
+    SEK3.Unit k (SEK3.inverse k g) := SEK3.unit_inverse k g h
+example (k : Nat) : SEK3.Unit k (sekA k) := sekA_unit k
+
+/-! ## Bundles: the direct product, any list of parts, any nesting -/
+
+/-- the matrix of a product element is block diagonal in the prefix-sum layout -/
+theorem bundle_matrix_block_diagonal (A B : LieModel ℝ) (g : Vec ℝ (A.rep + B.rep)) :
+    (Bundle.prod A B).matrix g = Bundle.bdiag (A.matrix (Bundle.fst g)) (B.matrix (Bundle.snd g)) :=
+  Bundle.prod_matrix A B g
+
+/-- block-diagonal matrices multiply blockwise -/
+theorem bundle_bdiag_mmul {n m : Nat} (A A' : Mat ℝ n n) (B B' : Mat ℝ m m) :
+    mmul (Bundle.bdiag A B) (Bundle.bdiag A' B') = Bundle.bdiag (mmul A A') (mmul B B') :=
+  Bundle.bdiag_mmul A A' B B'
+
+/-- the matrix-group property is closed under the binary product of the Bundle model -/
+theorem bundle_prod_isMatrixGroup {A B : LieModel ℝ} {VA : Vec ℝ A.rep → Prop} {VB : Vec ℝ B.rep → Prop}
+    (hA : IsMatrixGroup A VA) (hB : IsMatrixGroup B VB) :
+    IsMatrixGroup (Bundle.prod A B) (Bundle.prodValid VA VB) := Bundle.prod_isMatrixGroup hA hB
+example : IsMatrixGroup (SO3.model : LieModel ℝ) SO3.Unit ∧ IsMatrixGroup (Tn.model 2 : LieModel ℝ) (fun _ => True) :=
+  ⟨SO3.isMatrixGroup, Tn.isMatrixGroup 2⟩
+
+/-- … hence it holds for `Bundle.bundle` of ANY list of matrix-group models (induction over the list;
+    validity of a bundle element = validity of every part) -/
+theorem bundle_isMatrixGroup (ps : List Bundle.VModel) (h : ∀ p ∈ ps, IsMatrixGroup p.G p.Valid) :
+    IsMatrixGroup (Bundle.bundle (ps.map Bundle.VModel.G)) (Bundle.bundleValid ps) :=
+  Bundle.bundle_isMatrixGroup ps h
+example : ∀ p ∈ [Bundle.VModel.mk (SE3.model : LieModel ℝ) SE3.Unit, ⟨Tn.model 3, fun _ => True⟩, ⟨C1.model, C1.Valid⟩],
+    IsMatrixGroup p.G p.Valid := by
+  intro p hp
+  simp only [List.mem_cons, List.not_mem_nil, or_false] at hp
+  rcases hp with rfl | rfl | rfl
+  · exact SE3.isMatrixGroup
+  · exact Tn.isMatrixGroup 3
+  · exact C1.isMatrixGroup
+
+/-! ## Every supported group type (`GDesc`: SO2 SO3 SE2 SE3 C1 GAL T<n> SEK<k> B[…]) -/
+
+/-- C01 for every supported group type, Bundles of arbitrary length and nesting:
+    `GDesc.Valid d` is the representation constraint (of every part, for Bundles). -/
+theorem every_group_isMatrixGroup (d : GDesc) :
+    IsMatrixGroup (GDesc.model d : LieModel ℝ) (GDesc.Valid d) := GDesc.isMatrixGroup d
+
+variable (d : GDesc)
+
+theorem matrix_composition (a b : Vec ℝ (GDesc.model d : LieModel ℝ).rep)
+    (ha : GDesc.Valid d a) (hb : GDesc.Valid d b) :
+    (GDesc.model d).matrix ((GDesc.model d).composition a b)
+      = mmul ((GDesc.model d).matrix a) ((GDesc.model d).matrix b) :=
+  (GDesc.isMatrixGroup d).matrix_composition a b ha hb
+
+/-- a valid non-trivial element of the Bundle `B[SO3, T2]`: (qA, (1, −2)) -/
+noncomputable def bunA : Vec ℝ (4 + (2 + 0)) :=
+  vcat qA (vcat (mk2 1 (-2) : Vec ℝ 2) (vzero 0))
+theorem bunA_valid : GDesc.Valid (.bundle [.so3, .tn 2]) bunA := by
+  refine ⟨?_, trivial, trivial⟩
+  show SO3.Unit (Bundle.fst (n := 4) (m := 2 + 0) bunA)
+  unfold bunA
+  rw [Bundle.fst_vcat]; exact qA_unit
+example : GDesc.Valid (.bundle [.so3, .tn 2]) bunA := bunA_valid
+
+theorem matrix_identity : (GDesc.model d).matrix ((GDesc.model d : LieModel ℝ).identity) = ident _ :=
+  (GDesc.isMatrixGroup d).matrix_identity
+
+theorem matrix_inverse (a : Vec ℝ (GDesc.model d : LieModel ℝ).rep) (ha : GDesc.Valid d a) :
+    mmul ((GDesc.model d).matrix ((GDesc.model d).inverse a)) ((GDesc.model d).matrix a) = ident _ ∧
+    mmul ((GDesc.model d).matrix a) ((GDesc.model d).matrix ((GDesc.model d).inverse a)) = ident _ :=
+  ⟨(GDesc.isMatrixGroup d).matrix_inverse_left a ha, (GDesc.isMatrixGroup d).matrix_inverse_right a ha⟩
+example : GDesc.Valid (.bundle [.so3, .tn 2]) bunA := bunA_valid
+
+/-- `matrix (inverse g)` is Mathlib's matrix inverse `(matrix g)⁻¹`, and `det (matrix g) ≠ 0` -/
+theorem matrix_inverse_eq_inv (a : Vec ℝ (GDesc.model d : LieModel ℝ).rep) (ha : GDesc.Valid d a) :
+    toM ((GDesc.model d).matrix ((GDesc.model d).inverse a)) = (toM ((GDesc.model d).matrix a))⁻¹ ∧
+    (toM ((GDesc.model d).matrix a)).det ≠ 0 :=
+  ⟨(GDesc.isMatrixGroup d).matrix_inverse_eq_inv a ha, (GDesc.isMatrixGroup d).matrix_det_ne_zero a ha⟩
+example : GDesc.Valid (.bundle [.so3, .tn 2]) bunA := bunA_valid
+
+/-- the constraint is preserved by the operations (so the statements chain) -/
+theorem valid_closed :
+    GDesc.Valid d ((GDesc.model d : LieModel ℝ).identity) ∧
+    (∀ a b, GDesc.Valid d a → GDesc.Valid d b → GDesc.Valid d ((GDesc.model d).composition a b)) ∧
+    (∀ a, GDesc.Valid d a → GDesc.Valid d ((GDesc.model d).inverse a)) :=
+  ⟨(GDesc.isMatrixGroup d).valid_identity, (GDesc.isMatrixGroup d).valid_composition,
+    (GDesc.isMatrixGroup d).valid_inverse⟩
+example : GDesc.Valid (.bundle [.so3, .tn 2]) bunA := bunA_valid
+
+/-! ### Corollaries: associativity, two-sided identity and inverse (through `matrix`) -/
+
+theorem matrix_assoc (a b c : Vec ℝ (GDesc.model d : LieModel ℝ).rep)
+    (ha : GDesc.Valid d a) (hb : GDesc.Valid d b) (hc : GDesc.Valid d c) :
+    (GDesc.model d).matrix ((GDesc.model d).composition ((GDesc.model d).composition a b) c)
+      = (GDesc.model d).matrix ((GDesc.model d).composition a ((GDesc.model d).composition b c)) :=
+  (GDesc.isMatrixGroup d).matrix_assoc a b c ha hb hc
+example : GDesc.Valid (.bundle [.so3, .tn 2]) bunA := bunA_valid
+
+theorem matrix_left_id (a : Vec ℝ (GDesc.model d : LieModel ℝ).rep) (ha : GDesc.Valid d a) :
+    (GDesc.model d).matrix ((GDesc.model d).composition (GDesc.model d).identity a)
+      = (GDesc.model d).matrix a := (GDesc.isMatrixGroup d).matrix_left_id a ha
+example : GDesc.Valid (.bundle [.so3, .tn 2]) bunA := bunA_valid
+
+theorem matrix_right_id (a : Vec ℝ (GDesc.model d : LieModel ℝ).rep) (ha : GDesc.Valid d a) :
+    (GDesc.model d).matrix ((GDesc.model d).composition a (GDesc.model d).identity)
+      = (GDesc.model d).matrix a := (GDesc.isMatrixGroup d).matrix_right_id a ha
+example : GDesc.Valid (.bundle [.so3, .tn 2]) bunA := bunA_valid
+
+theorem matrix_left_inv (a : Vec ℝ (GDesc.model d : LieModel ℝ).rep) (ha : GDesc.Valid d a) :
+    (GDesc.model d).matrix ((GDesc.model d).composition ((GDesc.model d).inverse a) a)
+      = (GDesc.model d).matrix (GDesc.model d).identity := (GDesc.isMatrixGroup d).matrix_left_inv a ha
+example : GDesc.Valid (.bundle [.so3, .tn 2]) bunA := bunA_valid
+
+theorem matrix_right_inv (a : Vec ℝ (GDesc.model d : LieModel ℝ).rep) (ha : GDesc.Valid d a) :
+    (GDesc.model d).matrix ((GDesc.model d).composition a ((GDesc.model d).inverse a))
+      = (GDesc.model d).matrix (GDesc.model d).identity := (GDesc.isMatrixGroup d).matrix_right_inv a ha
+example : GDesc.Valid (.bundle [.so3, .tn 2]) bunA := bunA_valid
+
+/-! ### The model operations are Mathlib's matrix operations -/
+
+theorem mmul_is_matrix_mul {n k m : Nat} (A : Mat ℝ n k) (B : Mat ℝ k m) :
+    toM (mmul A B) = toM A * toM B := toM_mmul A B
+theorem ident_is_one (n : Nat) : toM (ident n : Mat ℝ n n) = 1 := toM_ident n
+theorem mulVec_is_matrix_mulVec {n m : Nat} (A : Mat ℝ n m) (v : Vec ℝ m) :
+    toV (mulVec A v) = Matrix.mulVec (toM A) (toV v) := toV_mulVec A v
 
 end C01
